@@ -579,6 +579,12 @@ class FakeGit:
         rc, out = target._exec(argv[1:])
         if self.log is not None:
             self.log.append((list(argv), rc, out))
+        if s is not None and s.handlers.get(int(signal.SIGCHLD)) == signal.SIG_IGN:
+            # SIGCHLD is ignored (inherited, and the program has not put the default back): the kernel reaps the
+            # child itself, waitpid() says ECHILD and subprocess reports exit status 0 whatever git said
+            if rc != 0:
+                s.count("reach.git_exit_status_lost_because_SIGCHLD_is_ignored")
+            rc = 0
         if s is not None and is_main():
             s.after_call()
         o = out if text else out.encode()
@@ -1096,9 +1102,19 @@ def _fs_logger(name, real, path_arg):
         except Exception:
             pass
         s.kill_instant(None, name, "call")
+        kf = getattr(s, "kill_fs", None)
+        if kf is not None and kf.get("name") == name:
+            s.fs_calls[name] = s.fs_calls.get(name, 0) + 1
+            if s.fs_calls[name] == kf.get("n", 1) and kf.get("when") == "call":
+                s.emit("KILLED", s.ki, "-", name, "fs-call")
+                os._exit(137)
         try:
             return real(*a, **kw)
         finally:
+            if kf is not None and kf.get("name") == name and s.fs_calls.get(name) == kf.get("n", 1) \
+                    and kf.get("when") != "call":
+                s.emit("KILLED", s.ki, "-", name, "fs-ret")
+                os._exit(137)
             s.kill_instant(None, name, "ret")
 
     shim.__name__ = name
@@ -1981,6 +1997,10 @@ class Sim:
             # with SIGINT ignored)
             self.handlers[int(getattr(signal, "SIG" + nm))] = signal.SIG_IGN
         self.kill_at = op.get("kill")
+        # directed crash point: right before / after the n-th call of one file-system primitive (symlink, mkdir,
+        # unlink) - the instants at which a half-made directory entry exists
+        self.kill_fs = op.get("kill_fs")
+        self.fs_calls = {}
         self.stdout_gone = False
         # SIGCHLD inherited as ignored matters for the REAL helper processes (tar): the kernel then reaps
         # them itself and waitpid() answers ECHILD
